@@ -33,6 +33,8 @@ def make_desc(shape):
             tid = 100
         ps = []
         for nt in procs:
+            if len(sh) > 2 and sh[2] == "same-tids-in-loom":
+                tid = 100          # thread ids are only unique inside a process (containers)
             ps.append({"pid": pid, "appid": pid - 9, "threads": list(range(tid, tid + nt))})
             tid += nt; pid += 1
         cpus = [(i, (ncpus - 1 - i) * 2 + li) for i in range(ncpus)]
@@ -124,7 +126,11 @@ def skip_sym(sys_, keys, sym):
     # (the emulator refuses it with an internal channel error while it
     # ignores the same situation for OAs).  Recorded in DESIGN.md, not judged.
     if sym[1] == "R":
-        t = sys_.thread(keys[sym[3]])
+        # the thread the event really names: ids are looked up in the emitter's own
+        # process first, then in its loom (several processes may use the same ids)
+        em = sys_.thread(keys[sym[0]])
+        tid = keys[sym[3]][2]
+        t = em.proc.threads.get(tid) or em.loom.find_thread(tid) or sys_.thread(keys[sym[3]])
         if t.cpu is not None and t.cpu is t.loom.get_cpu(sym[2]):
             return True
     return False
@@ -233,7 +239,8 @@ def gen_random(chk, i):
     rng = chk.rng(i, "rand")
     shape = rng.choice([[(2, [2])], [(3, [2, 1])], [(2, [3])], [(2, [1, 1]), (2, [2])], [(3, [2]), (2, [1, 2])],
                         [(1, [3])], [(2, [2]), (2, [1, 1], "same-tids")], [(3, [1, 2]), (3, [1, 1, 1], "same-tids")],
-                        [(2, [1, 1]), (2, [2], "same-tids")]])
+                        [(2, [1, 1]), (2, [2], "same-tids")], [(3, [1, 1, 1], "same-tids-in-loom")],
+                        [(3, [2, 2], "same-tids-in-loom")], [(2, [1]), (3, [1, 2], "same-tids-in-loom")]])
     desc = make_desc(shape)
     keys = keys_of(desc)
     ncpu = {l["name"]: len(l["cpus"]) for l in desc["looms"]}
@@ -307,6 +314,8 @@ def main(argv):
     closure += enumerate_closure([(1, [1, 1])], [0, -1], 4 if quick else 5, maxcases=None if quick else 600, rng=rng)
     # two nodes using the same thread ids; the second one has its threads in two processes
     closure += enumerate_closure([(1, [1]), (2, [1, 1], "same-tids")], [0, 1], 3, maxcases=400 if quick else 3000, rng=rng)
+    # three processes of one node, each with a thread 100
+    closure += enumerate_closure([(2, [1, 1, 1], "same-tids-in-loom")], [0, 1], 3, maxcases=400 if quick else 3000, rng=rng)
     nrandom = 200 if quick else 6000
     runs = acc = rej = lines = vover = 0
     words = set()
